@@ -83,6 +83,11 @@ func Main(t *testing.T, prop string, gen Gen, rule string, nontrivial func(Cfg, 
 				res.Count("seq:" + sk)
 				if it.ExecErr {
 					res.Count("exec:error")
+				} else if obs[i].Call != nil {
+					res.Count(fmt.Sprintf("exec:returns-max-bytes=%d", MaxBytesOf(it)))
+					if it.EmptyRoot {
+						res.Count("exec:returns-root-of-length-0")
+					}
 				}
 				if it.Peek && obs[i].Call != nil {
 					res.Count("reader:during-execution")
@@ -104,6 +109,12 @@ func Main(t *testing.T, prop string, gen Gen, rule string, nontrivial func(Cfg, 
 			res.Count(fmt.Sprintf("chain-length:%s", bucket(maxH-rp.Cfg.Initial+1)))
 		} else {
 			res.Count("chain-length:0")
+		}
+		if w.Or.OverLimit > 0 {
+			res.Count("history:batch-larger-than-the-max-bytes-last-reported-by-the-execution-layer")
+		}
+		if w.Or.OnEmpty > 0 {
+			res.Count("history:block-committed-on-a-state-root-of-length-0")
 		}
 		if w.Or.earlyEmpty {
 			res.Count("history:empty-batch-with-earlier-timestamp")
